@@ -7,7 +7,20 @@ import os, sys, io, subprocess, sysconfig, traceback, multiprocessing, hashlib, 
 
 PY_INC = sysconfig.get_paths()['include']
 EXT_SUFFIX = sysconfig.get_config_var('EXT_SUFFIX')
-NPROC = int(os.environ.get('VERIF_JOBS', '0')) or (os.cpu_count() or 4)
+def _default_procs():
+    n = os.cpu_count() or 4
+    try:
+        load = os.getloadavg()[0]
+    except OSError:
+        load = 0
+    if load > 2 * n:        # heavily shared machine: do not pile on (affects speed only, never the set of cases)
+        return max(4, n // 4)
+    if load > n:
+        return max(4, n // 2)
+    return n
+
+
+NPROC = int(os.environ.get('VERIF_JOBS', '0')) or _default_procs()
 
 
 def numpy_include():
@@ -126,9 +139,16 @@ def build_many(jobs, procs=None):
     procs = min(procs or NPROC, len(jobs))
     if procs <= 1:
         return [_build_job(j) for j in jobs]
+    return _pool_map(_build_job, jobs, procs, 1)
+
+
+def _pool_map(func, items, procs, chunksize=1):
+    """Ordered parallel map in forked workers.  Unlike multiprocessing.Pool this fails loudly
+    (BrokenProcessPool) instead of hanging when a worker process dies."""
+    from concurrent.futures import ProcessPoolExecutor
     ctx = multiprocessing.get_context('fork')
-    with ctx.Pool(procs) as pool:
-        return pool.map(_build_job, jobs, chunksize=1)
+    with ProcessPoolExecutor(max_workers=procs, mp_context=ctx) as ex:
+        return list(ex.map(func, items, chunksize=chunksize))
 
 
 def pmap(func, items, procs=None, chunksize=1):
@@ -139,9 +159,7 @@ def pmap(func, items, procs=None, chunksize=1):
     procs = min(procs or NPROC, len(items))
     if procs <= 1:
         return [func(i) for i in items]
-    ctx = multiprocessing.get_context('fork')
-    with ctx.Pool(procs) as pool:
-        return pool.map(func, items, chunksize=chunksize)
+    return _pool_map(func, items, procs, chunksize)
 
 
 def load(so_path, name=None):
